@@ -195,6 +195,12 @@ func (c *ctx) rewrite() {
 					cur.Replace(sel("Yield"))
 					c.used = true
 					stats["T8_gosched"]++
+				case n.Sel.Name == "Getpid" && c.isPkg(id, "os"):
+					// the process id is an input of the run like any other (names of
+					// temporary files built from it must not collide between two runs)
+					cur.Replace(sel("Getpid"))
+					c.used = true
+					stats["T14_getpid"]++
 				}
 			}
 		case *ast.SendStmt:
